@@ -60,7 +60,7 @@ def run(ctx, res):
     res.floor("FCI parsers", len(fcis), 5)
     for nm in fcis:
         if nm not in FCI:
-            res.ob(False, "anchor", nm, "FCI parser has a row in the RFC FCI table")
+            res.extra_type(nm, "FCI parser has a row in the RFC FCI table", FCI.keys(), fcis.keys())
     # ------------------------------------------------------------------ gating
     n_gate = 0
     entry_of = {D.impl_item(FCI_PARSER, a, "parse"): a for a in fcis.values()}
@@ -86,7 +86,9 @@ def run(ctx, res):
             pv = v.fields["0"]
             P = H.last_byte_forms()[0] if solver.entails(s.pc, H.pbit_set()) else lin(0)
             for fname, fadt in fcis.items():
-                want_kind, want_fmt = FCI.get(fname, (None, None))
+                if fname not in FCI:
+                    continue      # a type the RFC FCI table has no row for (recorded by extra_type above)
+                want_kind, want_fmt = FCI[fname]
                 fake = {"gargs": [D.ty_index_of_adt(fadt) if g == gens[0] else None for g in F.bodies[pf[0]]["generics"]]}
                 for s2, k2, r in I.inline(pf[0], fake, s.clone(), [pv]):
                     n_gate += 1
@@ -120,6 +122,8 @@ def decoders(F, D, res, fcis, only=None):
     for fname, fadt in fcis.items():
         if only is not None and fname not in only:
             continue
+        if fname not in FCI:
+            continue      # no row in the RFC FCI table (recorded by extra_type in run())
         d = D.impl_item(FCI_PARSER, fadt, "parse")
         I = Interp(F)
         inp = input_slice()
